@@ -321,8 +321,8 @@ func genScenario() *netctl.Scenario {
 					kgo.ConsumeResetOffset(kgo.NewOffset().AtStart()),
 					kgo.FetchMaxWait(500 * time.Millisecond),
 					kgo.HeartbeatInterval(time.Second),
-					kgo.SessionTimeout(40 * time.Second),
-					kgo.RebalanceTimeout(20 * time.Second),
+					kgo.SessionTimeout(sessionTimeout),
+					kgo.RebalanceTimeout(rebalanceTimeout),
 					kgo.AutoCommitInterval(10 * time.Minute),
 				}
 				if cfg.k848 {
@@ -548,6 +548,33 @@ func genScenario() *netctl.Scenario {
 					g.mu.Unlock()
 				}
 				close(gates[len(a)])
+				if cfg.block {
+					// BlockRebalanceOnPoll contract: every poll that returned -
+					// also one that returned only because its own context
+					// expired, or with the ErrClientClosed fetch - registers a
+					// poller that blocks rebalances (and thereby the leave
+					// inside Close) until the application calls AllowRebalance
+					// ("Close will hang if you polled, did not allow
+					// rebalances"). CloseAllowingRebalance allows only the
+					// pollers registered BEFORE it is called; a poll of the
+					// application's loop that returns later must be followed
+					// by the loop's own AllowRebalance. The application
+					// therefore ends like a real poll loop: once the shutdown
+					// has been requested (so that "records held, rebalance not
+					// yet allowed" is still a state Close can arrive in) it
+					// finishes processing (1 s) and allows the rebalance.
+					for i := 0; i < 600; i++ {
+						g.mu.Lock()
+						n := len(g.calls)
+						g.mu.Unlock()
+						if n > 0 {
+							break
+						}
+						time.Sleep(100 * time.Millisecond)
+					}
+					time.Sleep(time.Second)
+					g.cl.AllowRebalance()
+				}
 			})
 			if cfg.envB {
 				bgate := gates[len(a)]
